@@ -39,16 +39,18 @@ func (w *world) monitorSource() {
 	}
 	s := w.outs[0].snap()
 	got := s.ints()
-	vals, errs, ends := w.c.expectSource(len(got) + 1)
+	vals, _, ends := w.c.expectSource(len(got) + 1)
 	if !isPrefix(got, vals) {
 		w.bad("prefix", "%s delivered %v, which is not a prefix of the successive sequence %v...", w.c.Stage, got, vals)
 	}
 	if len(w.errs) > 0 {
 		es := w.errs[0].snap()
-		if !isPrefix(es.ints(), errs) && !(w.c.Mode == "try" && isPrefix(es.ints(), w.c.allFailsSorted())) {
-			w.bad("prefix", "%s delivered errors %v, expected a prefix of %v", w.c.Stage, es.ints(), errs)
+		// values already sent may still sit in the output buffer while the error is out: look ahead by the capacity
+		_, errsAhead, endsAhead := w.c.expectSource(len(got) + w.c.Cap + 2)
+		if !isPrefix(es.ints(), errsAhead) && !(w.c.Mode == "try" && isPrefix(es.ints(), w.c.allFailsSorted())) {
+			w.bad("prefix", "%s delivered errors %v, expected a prefix of %v", w.c.Stage, es.ints(), errsAhead)
 		}
-		if es.closed && !w.cancelled && !ends {
+		if es.closed && !w.cancelled && !endsAhead {
 			w.bad("closed-early", "%s error channel closed without cancel or failure", w.c.Stage)
 		}
 	}
